@@ -54,10 +54,13 @@ TFinal == /\ Is("final") /\ pend = <<>> /\ l' = l + 1
           /\ UNCHANGED <<reg, pend>>
 
 (* ---- C09: the mixed workload -------------------------------------------------- *)
-Allowed(op) == CASE op \in {"Get", "BGet", "IterValue"} -> {"ok", "notfound"}
-                 [] op = "Merge" -> {"ok", "merging", "err:merge output needs more data files than took part in the merge"}
-                 [] OTHER -> {"ok"}
-TCop  == /\ Is("cop") /\ l' = l + 1 /\ Must("c09", E.err \in Allowed(E.op)) /\ UNCHANGED <<reg, pend>>
+\* individually valid calls succeed (reads may answer not-found); Merge may decline (in progress, output would not
+\* fit, ratio, space) but never with a panic, a hang or an internal-inconsistency error
+Internal == {"panic", "stuck", "indexfail", "nofile", "crc", "eof", "closed"}
+OutcomeOK(op, err) == CASE op \in {"Get", "BGet", "IterValue"} -> err \in {"ok", "notfound"}
+                        [] op = "Merge" -> err \notin Internal
+                        [] OTHER -> err = "ok"
+TCop  == /\ Is("cop") /\ l' = l + 1 /\ Must("c09", OutcomeOK(E.op, E.err)) /\ UNCHANGED <<reg, pend>>
 TNote == /\ Is("note") /\ l' = l + 1 /\ Must(E.check, E.ok) /\ UNCHANGED <<reg, pend>>
 
 Next == TReset \/ TCall \/ TRet \/ TFinal \/ TCop \/ TNote \/ \E c \in DOMAIN pend : Lin(c)
